@@ -128,6 +128,213 @@ def h_ragged_code(n: int, N: int, a0: int, a1: int, a2: int, S: int, E: int, K: 
     reach('end')
 
 
+def _check_code(lang, code, n, N, atom, numtype, indextype, bo, S, E, k0, what):
+    """the program `code` denotes the stored arrays (n index rows, N value rows) and its accessor selects rows
+    [S, E) for subarray k0 (0-based)"""
+    natom = len(atom)
+    origin = 0 if lang in ('darr', 'numpymemmap', 'idl') else 1
+    try:
+        den = raggedcode.interpret(lang, code, S, E, k0 + origin, natom)
+    except IllFormed as e:
+        raise Violation(f'{lang} ({what}): generated ragged code is not well-formed: {e}', code=code)
+    if den['iden'] is not None:
+        al = ALANG.get(lang, lang)
+        check_denotation(den['iden'], al, indextype, 'little', [n, 2], 'indices/arrayvalues.bin')
+        check_denotation(den['vden'], al, numtype, bo, [N] + list(atom), 'values/arrayvalues.bin')
+    if den['lo'] != S or den['hi'] != E:
+        raise Violation(f'{lang} ({what}): the subarray accessor does not select rows start..end of subarray k')
+    ek = den['example_k']
+    if not (den['origin'] <= ek <= den['origin'] + n - 1):
+        raise Violation(f'{lang} ({what}): the example statement reads subarray {ek}, which does not exist')
+
+
+def h_history(l1: int, l2: int, k: int, numtype='int32', indextype='int64', atom=(), langs=tuple(RLANGS),
+              bo='little', steps=('truncate', 'append'), _gate=None, _small=False):
+    """read code asked for on ONE handle before and after the array changes through the API (last subarray
+    removed, another of a different length appended: same number of subarrays, other values length) must
+    describe the array as it is at the moment of asking"""
+    assume(1 <= l1 <= 2 ** 20 and 0 <= l2 <= 2 ** 20 and 1 <= k <= 2 ** 20)
+    small(_small, l1, l2, k)
+    w = new_world()
+    put_ragged(D, w, '/w/dat/rag', [l1, l2], numtype, bo, tuple(atom), indextype)
+    ra = RA.RaggedArray('/w/dat/rag', accessmode='r+')
+    natom = len(atom)
+    asize = symnp._prod(list(atom))
+    for lang in langs:
+        code = ra.readcode(lang)
+        if code is not None:
+            _check_code(lang, code, 2, l1 + l2, atom, numtype, indextype, bo, l1, l1 + l2, 1, 'before')
+    n, N, S = 2, l1 + l2, l1
+    try:
+        for st in steps:
+            if st == 'truncate':
+                RA.truncate_raggedarray(ra, 1)
+                n, N, S = 1, l1, 0
+            elif st == 'append':
+                ra.append(np.ndarray(np.SymDType(numtype, gt_of(numtype, bo)), (k,) + tuple(atom), Seq.of(('new', 1), k)))
+                n, S, N = n + 1, N, N + k
+    except Exception as e:
+        raise Violation(f'a valid truncate/append raised {type(e).__name__}', msg=holes.symstr(e))
+    for lang in langs:
+        want = expected_offered(lang, numtype, indextype, natom, N * asize)
+        code = ra.readcode(lang)
+        if code is None:
+            if want:
+                raise Violation(f'{lang}: ragged code withheld after the change although the types are supported')
+            continue
+        if not want:
+            raise Violation(f'{lang}: ragged code offered after the change although unsupported')
+        _check_code(lang, code, n, N, atom, numtype, indextype, bo, S, N, n - 1, 'after ' + '+'.join(steps))
+    reach('end')
+
+
+def h_run_readonly(l1: int, l2: int, k: int, probe: int, numtype='int32', atom=(), version='same', withmeta=False,
+                   _gate=None, _small=False):
+    """what the generated 'Python with Darr' program DOES - darr.RaggedArray(path) with the default access mode,
+    then a[k] - changes no file of the array, whichever Darr version wrote its descriptions"""
+    assume(0 <= l1 <= 2 ** 20 and 0 <= l2 <= 2 ** 20 and 0 <= k <= 1)
+    small(_small, l1, l2)
+    w = new_world()
+    put_ragged(D, w, '/w/dat/rag', [l1, l2], numtype, 'little', tuple(atom), 'int64',
+               metadata={'who': 'me'} if withmeta else None)
+    if version != 'same':
+        for pth in ('/w/dat/rag', '/w/dat/rag/values', '/w/dat/rag/indices'):
+            node = w.lookup(pth + '/arraydescription.json')
+            obj = dict(node.text.obj)
+            obj['darrversion'] = version
+            node.text = JsonDoc(obj)
+    before = snap(w.lookup('/w/dat/rag'))
+    code = ra_code = None
+    try:
+        a = RA.RaggedArray(path='/w/dat/rag')
+        sub = a[k]
+        code = a.readcode('darr')
+    except Exception as e:
+        raise Violation(f'reading a well-formed ragged array written by Darr {version} raised {type(e).__name__}',
+                        msg=holes.symstr(e))
+    if not snap_same(before, snap(w.lookup('/w/dat/rag')), probe):
+        raise Violation(f'executing what the Darr read code does (open read-only, index) CHANGED a file of the array '
+                        f'(descriptions written by Darr version {version})')
+    no_open_handles(w, 'after running the read code')
+    reach('end')
+
+
+def replay_run_readonly(cex, d):
+    import warnings
+    import json as js
+    import hashlib
+    warnings.simplefilter('ignore')
+    darr, np_ = rp.real()
+    fx = dict(d.get('fixed') or {})
+    fx.update(cex)
+    l1, l2 = min(int(fx['l1']), 5), min(int(fx['l2']), 5)
+    atom = tuple(fx['atom'])
+
+    def tree(p):
+        out = {}
+        for dp, dn, fn in os.walk(p):
+            for f in fn:
+                q = os.path.join(dp, f)
+                out[os.path.relpath(q, p)] = hashlib.sha256(open(q, 'rb').read()).hexdigest()
+        return out
+    with rp.scratch() as tmp:
+        p = tmp + '/rag'
+        ra = darr.asraggedarray(p, [rp.values(np_, l1, atom, fx['numtype'], 'little', 1),
+                                    rp.values(np_, l2, atom, fx['numtype'], 'little', 9)],
+                                metadata={'who': 'me'} if fx.get('withmeta') else None)
+        code = ra.readcode('darr', abspath=True)
+        del ra
+        if fx['version'] != 'same':
+            for sub in ('', '/values', '/indices'):
+                q = p + sub + '/arraydescription.json'
+                obj = js.load(open(q))
+                obj['darrversion'] = fx['version']
+                js.dump(obj, open(q, 'w'))
+        before = tree(p)
+        try:
+            ns = {}
+            if code is not None:
+                exec(code, ns)
+                ns['a'][int(fx['k'])]
+            else:
+                darr.RaggedArray(path=p)[int(fx['k'])]
+            ns.clear()
+        except Exception as e:
+            return {'reproduced': True, 'detail': f'running the Darr read code raised {e!r}'}
+        after = tree(p)
+        if after != before:
+            ch = sorted(x for x in set(before) | set(after) if before.get(x) != after.get(x))
+            return {'reproduced': True, 'detail': f'running the generated Darr code changed {ch}'}
+    return {'reproduced': False, 'detail': 'running the Darr read code leaves every file byte-identical'}
+
+
+def replay_history(cex, d):
+    import warnings
+    warnings.simplefilter('ignore')
+    darr, np_ = rp.real()
+    fx = dict(d.get('fixed') or {})
+    fx.update(cex)
+    numtype, indextype, atom = fx['numtype'], fx['indextype'], tuple(fx['atom'])
+    l1, l2, k = (min(int(fx[x]), 7) for x in ('l1', 'l2', 'k'))
+    if l2 == k:
+        k = k + 1
+    probs = []
+    with rp.scratch() as tmp:
+        subs = [rp.values(np_, l1, atom, numtype, fx.get('bo', 'little'), 1), rp.values(np_, l2, atom, numtype, fx.get('bo', 'little'), 50)]
+        ra = darr.asraggedarray(tmp + '/rag', subs, indextype=indextype, accessmode='r+')
+        for lg in RLANGS:
+            ra.readcode(lg)
+        n, N, S = 2, l1 + l2, l1
+        for st in fx['steps']:
+            if st == 'truncate':
+                darr.truncate_raggedarray(ra, 1)
+                subs = subs[:1]
+                n, N, S = 1, l1, 0
+            else:
+                new = rp.values(np_, k, atom, numtype, fx.get('bo', 'little'), 90)
+                ra.append(new)
+                subs.append(new)
+                n, S, N = n + 1, N, N + k
+        fresh = darr.RaggedArray(tmp + '/rag')
+        for lg in RLANGS:
+            code = ra.readcode(lg)
+            if (code is None) != (fresh.readcode(lg) is None):
+                probs.append(f'{lg}: offered on the changed handle differs from a fresh handle')
+                continue
+            if code is None:
+                continue
+            try:
+                origin = 0 if lg in ('darr', 'numpymemmap', 'idl') else 1
+                den = raggedcode.interpret(lg, code, S, N, n - 1 + origin, len(atom))
+            except IllFormed as e:
+                probs.append(f'{lg}: not well-formed: {e}')
+                continue
+            if den['iden'] is not None:
+                try:
+                    al = ALANG.get(lg, lg)
+                    check_denotation(den['iden'], al, indextype, 'little', [n, 2], 'indices/arrayvalues.bin')
+                    check_denotation(den['vden'], al, numtype, fx.get('bo', 'little'), [N] + list(atom), 'values/arrayvalues.bin')
+                except Violation as e:
+                    probs.append(f'{lg}: after the change the code does not describe the stored arrays: {e}')
+            if lg == 'numpymemmap':
+                ns = {}
+                cwd = os.getcwd()
+                try:
+                    os.chdir(tmp + '/rag')
+                    exec(code, ns)
+                    for k0 in range(n):
+                        if np_.asarray(ns['getsubarray'](k0)).tobytes() != np_.asarray(subs[k0]).tobytes():
+                            probs.append('numpymemmap: executed accessor returns other data after the change')
+                except Exception as e:
+                    probs.append(f'numpymemmap: executing raised {e!r}')
+                finally:
+                    os.chdir(cwd)
+                    ns.clear()
+    if probs:
+        return {'reproduced': True, 'detail': '; '.join(probs[:3])[:1500]}
+    return {'reproduced': False, 'detail': 'read code of the changed handle describes the changed array'}
+
+
 def replay_ragged_code(cex, d):
     """concrete evaluation of the REAL readcode() output with the interpreter (and, for the Python
     family, execution)"""
@@ -242,7 +449,25 @@ def obligations(tier):
         for j, it in enumerate(its if thorough else [its[i % 7], 'int64']):
             for natom in ((0, 1, 2, 3) if thorough else ((i + j) % 3,)):
                 splits.append(dict(numtype=nt, indextype=it, natom=natom, bo='little' if (i + j) % 2 else 'big'))
-    return [Ob('RDENOTE', 'h_ragged_code', splits=splits, timeout=T, replay='replay_ragged_code', stub_readme=False,
+    hs = [dict(numtype='int32', indextype='int64', atom=(), steps=('truncate', 'append')),
+          dict(numtype='float64', indextype='int32', atom=(2,), steps=('append',)),
+          dict(numtype='uint8', indextype='int64', atom=(), steps=('truncate',))]
+    if thorough:
+        hs += [dict(numtype=nt, indextype=it, atom=at, steps=('truncate', 'append'))
+               for nt, it, at in (('int16', 'uint8', (3,)), ('complex128', 'int64', ()), ('float32', 'int16', (2, 2)))]
+    rs = [dict(version=v, withmeta=m, numtype=nt, atom=at)
+          for v in ('same', '0.1.0', '0.3.3', '99.0.0') for (m, nt, at) in ((False, 'int32', ()), (True, 'float64', (2,)))]
+    return [Ob('RUN-READONLY', 'h_run_readonly', splits=rs, timeout=T, replay='replay_run_readonly',
+               sym='l1, l2 (subarray lengths, 0 included), k, probe',
+               bounds='the Darr-language program (open with default access mode, index subarray k) on a two-subarray ragged '
+                      'array whose three descriptions carry the running, an older (0.1.0, 0.3.3) or a newer (99.0.0) '
+                      'darrversion, with and without metadata: every file of the array is unchanged afterwards'),
+            Ob('RHISTORY', 'h_history', splits=hs, timeout=T, replay='replay_history', stub_readme=False,
+               sym='l1, l2 (lengths of the two subarrays), k (length of the appended one)',
+               bounds='one r+ handle: readcode in all 9 languages, then truncate to 1 subarray and/or append one of k rows '
+                      '(through the real API), then readcode again: the second program must describe the array as it is '
+                      'now (a per-handle cache keyed too coarsely is caught); lengths 1..2^20'),
+            Ob('RDENOTE', 'h_ragged_code', splits=splits, timeout=T, replay='replay_ragged_code', stub_readme=False,
                sym='n (number of subarrays), N, atom extents a_j, S <= E (index row of subarray k), K (requested k)',
                bounds='9 languages x 13 value types x index types x atom rank 0..2 (thorough 0..3); n, N, atom extents, the '
                       'index row (S, E) with S <= E (zero-length subarrays are values) and the requested k are symbolic; '
